@@ -24,7 +24,18 @@ func (pi progImporter) Import(path string) (*types.Package, error) {
 	return nil, fmt.Errorf("fixture import %q: package not loaded", path)
 }
 
-// buildFixture returns the functions of the fixture package (by name).
+// fixtureMethods returns the methods of named type T of a fixture package built by buildFixture.
+func fixtureMethods(fx map[string]*ssa.Function, T string) []*ssa.Function {
+	var out []*ssa.Function
+	for n, fn := range fx {
+		if len(n) > len(T)+1 && n[:len(T)+1] == T+"." {
+			out = append(out, fn)
+		}
+	}
+	return out
+}
+
+// buildFixture returns the functions of the fixture package by name; methods are keyed "T.Method".
 func buildFixture(p *Prog, name, src string) (map[string]*ssa.Function, error) {
 	fset := p.Fset
 	f, err := parser.ParseFile(fset, name+".go", src, 0)
@@ -38,8 +49,18 @@ func buildFixture(p *Prog, name, src string) (map[string]*ssa.Function, error) {
 	}
 	out := map[string]*ssa.Function{}
 	for n, m := range sp.Members {
-		if fn, ok := m.(*ssa.Function); ok {
-			out[n] = fn
+		switch x := m.(type) {
+		case *ssa.Function:
+			out[n] = x
+		case *ssa.Type:
+			for _, T := range []types.Type{x.Type(), types.NewPointer(x.Type())} {
+				ms := sp.Prog.MethodSets.MethodSet(T)
+				for i := 0; i < ms.Len(); i++ {
+					if fn := sp.Prog.MethodValue(ms.At(i)); fn != nil && fn.Synthetic == "" {
+						out[n+"."+fn.Name()] = fn
+					}
+				}
+			}
 		}
 	}
 	return out, nil
